@@ -22,7 +22,7 @@ ASSUMPTIONS = [
     "independent reference: trapezoidal companion models on a float tableau, Richardson-extrapolated (h/4, h/8); accepted when its own two runs agree to 1e-3, compared at 2e-3 of the signal maximum",
     "settling is restated as agreement within 1e-6 after 30 slowest time constants (only for strictly stable circuits)",
 ]
-N_CASE = {'quick': 800, 'thorough': 12000}
+N_CASE = {'quick': 1000, 'thorough': 12000}
 SHAPES = ['ramp-hold', 'ramp', 'triangle', 'pulse']
 
 
